@@ -48,6 +48,25 @@ def check(ctx):
     ok = bool(pops) and bool(stores)
     ctx.ob("STO-6", cs, "every old column is popped and re-stored", cs.node, ok, "columns are moved, not copied or dropped" if ok else
            "colnames setter no longer pops and re-stores the columns", nontrivial=False)
+    # all columns are popped and re-stored: popping only some of them (those whose name changes) re-inserts these AFTER the
+    # ones left in place, so a partial rename reorders the frame
+    for c in pops:
+        comp = cs.module.parent.get(c)
+        while comp is not None and not isinstance(comp, (ast.ListComp, ast.GeneratorExp, ast.For)):
+            comp = cs.module.parent.get(comp)
+        it = comp.generators[0].iter if isinstance(comp, (ast.ListComp, ast.GeneratorExp)) else (comp.iter if comp is not None else None)
+        if it is None:
+            continue
+        srcs = [it]
+        if isinstance(it, ast.Name):
+            srcs = [d.value for d in defs_reaching(cs, it.id, c) if d.value is not None] or [it]
+        full = {f"list({s0}.keys())", f"list({s0})", f"{s0}.colnames", f"list({s0}.colnames)", f"tuple({s0}.keys())", f"tuple({s0})"}
+        okall = all(norm(v) in full for v in srcs)
+        ctx.ob("STO-6", cs, f"columns popped: all of {[norm(v)[:40] for v in srcs]}", c, okall,
+               "every column is taken out and put back, in order" if okall else
+               f"the columns that are popped and re-stored are {[norm(v)[:60] for v in srcs]}, not all of the frame's columns: the re-stored "
+               f"ones move behind those left in place, so renaming part of the columns changes the column order",
+               clause="colnames assignment renaming positionally")
     # ---------------------------------------------------------------- ORD-2
     rb = repo.fn(f"{DF}.rbind")
     R, OTH = rb.params[0], rb.vararg
@@ -228,6 +247,17 @@ def check(ctx):
     ctx.ob("NAME", uns, norm(ys[0].value) if ys else "unselect", ys[0] if ys else uns.node, ok,
            "exactly the columns not listed are kept, in order" if ok else "unselect does not keep exactly the unlisted columns",
            clause="change only which columns exist")
+    # rename is simultaneous: whether a requested name is already a column of the receiver says nothing about the result
+    # (swaps, cycles, shifts), so no request is rejected on that ground
+    ren_ = repo.fn(f"{DF}.rename")
+    rs0 = ren_.params[0]
+    for rz in [n for n in body_nodes(ren_.node) if isinstance(n, ast.Raise)]:
+        fz = [t for k, t in facts_at(ren_, rz) if k == "T" and (t.endswith(f" in {rs0}") or t.endswith(f" in {rs0}.colnames")
+                                                                or t.endswith(f" in {rs0}.keys()")) and " not in " not in t]
+        ctx.ob("NAME", ren_, f"raise under {fz or 'other conditions'}", rz, not fz,
+               "not a rejection of existing names" if not fz else
+               f"rename raises when a requested name is already a column ({fz[0]}): a permutation of existing names (a swap, a shift) is a "
+               f"request the statement says is honoured, and it is rejected", clause="select and rename honouring the requested order and names")
     # ------------------------------------------------------------------ DUP
     cb = repo.fn(f"{DF}.cbind")
     ys = yields_of(cb)
